@@ -233,7 +233,10 @@ def judge(case, base, got, crashes):
     # for crashes between handlers only the fan-outs whose join state cannot be rebuilt from redelivered events do.
     text = json.dumps(case["definition"])
     has_fanout = '"Type": "Parallel"' in text or '"Type": "Map"' in text
-    if f62_prone(case["definition"]) or (has_fanout and kinds != ["between"]):
+    # (a fan-out in which a Branch fails relies on the termination markers, which are part of the same in-memory join state: after a restart the redelivered
+    #  events of its other Branches are not recognised as belonging to a state that has already failed)
+    failing_fanout = has_fanout and (base.get("outcome") or {}).get("status") == "FAILED"
+    if f62_prone(case["definition"]) or failing_fanout or (has_fanout and kinds != ["between"]):
         fails = [(b + ":fanout", d) for b, d in fails]
     return fails, in_prog
 
